@@ -90,7 +90,7 @@ theorem cntInto_cons (k : Int) (kids : List Int) (u : Nat) :
 
 /-- every stored count is the in-degree plus the number of references the user holds (`ext`);
 the user holds nothing on numbers that are not nodes -/
-structure RefExact (m : MddMgr) (ext : Nat → Nat) : Prop where
+structure MRefExact (m : MddMgr) (ext : Nat → Nat) : Prop where
   cnt : ∀ u, (u = 1 ∨ (m.tbl.node? u).isSome) →
     m.ref[u]? = some (m.tbl.indeg (m.max + 1) u + ext u)
   extZero : ∀ u, u ≠ 1 → m.tbl.node? u = none → ext u = 0
